@@ -11,7 +11,6 @@ import (
 	"context"
 	"fmt"
 	"net/http"
-	"net/http/httptest"
 	"os"
 	"strings"
 	"sync"
@@ -259,7 +258,7 @@ func runLinkCase(t fataler, c linkCase) {
 	act := &activeSide{store: ha.NewInMemorySessionStore(), tbl: table{}, ver: map[string]int{}, sync: true}
 	act.syn = ha.NewHASyncer(activeConfig("active"), act.store, zap.NewNop())
 	g := newGate(act.syn.VerifActiveHandler())
-	srv := httptest.NewServer(g)
+	srv := newLoopbackServer(g)
 	sbStore := ha.NewInMemorySessionStore()
 	sb := startStandby(srv.Listener.Addr().String(), sbStore)
 	defer func() {
